@@ -2,16 +2,18 @@ module github.com/imroc/req/v3/verifharness
 
 go 1.22.0
 
-require github.com/imroc/req/v3 v3.0.0
+require (
+	github.com/andybalholm/brotli v1.1.1
+	github.com/imroc/req/v3 v3.0.0
+	github.com/klauspost/compress v1.17.11
+	github.com/quic-go/quic-go v0.48.2
+)
 
 require (
-	github.com/andybalholm/brotli v1.1.1 // indirect
 	github.com/cloudflare/circl v1.5.0 // indirect
 	github.com/hashicorp/errwrap v1.1.0 // indirect
 	github.com/hashicorp/go-multierror v1.1.1 // indirect
-	github.com/klauspost/compress v1.17.11 // indirect
 	github.com/quic-go/qpack v0.5.1 // indirect
-	github.com/quic-go/quic-go v0.48.2 // indirect
 	github.com/refraction-networking/utls v1.6.7 // indirect
 	golang.org/x/crypto v0.31.0 // indirect
 	golang.org/x/exp v0.0.0-20241215155358-4a5509556b9e // indirect
